@@ -724,6 +724,30 @@ fn try_run_func(
 
     let command = &cl.commands[0];
     if let Some(func_body) = sh.get_func(&command.tokens[0].1) {
+        // calls nest through the shell's own stack: a function that calls
+        // itself without end would overflow it
+        let depth = FUNCTION_DEPTH.with(|d| d.get());
+        if depth >= MAX_FUNCTION_DEPTH {
+            println_stderr!("cicada: {}: function calls nested too deeply", &command.tokens[0].1);
+            return Some(CommandResult::from_status(0, 1));
+        }
+        FUNCTION_DEPTH.with(|d| d.set(depth + 1));
+        let cr = run_func_body(sh, command, &func_body, capture, log_cmd);
+        FUNCTION_DEPTH.with(|d| d.set(depth));
+        return Some(cr);
+    }
+    None
+}
+
+const MAX_FUNCTION_DEPTH: usize = 64;
+
+thread_local! {
+    static FUNCTION_DEPTH: std::cell::Cell<usize> = std::cell::Cell::new(0);
+}
+
+fn run_func_body(sh: &mut Shell, command: &crate::types::Command, func_body: &str,
+                 capture: bool, log_cmd: bool) -> CommandResult {
+    {
         let mut args = vec!["cicada".to_string()];
         for token in &command.tokens {
             args.push(token.1.to_string());
@@ -731,7 +755,7 @@ fn try_run_func(
         if log_cmd {
             log!("run func: {:?}", &args);
         }
-        let cr_list = scripting::run_lines(sh, &func_body, &args, capture);
+        let cr_list = scripting::run_lines(sh, func_body, &args, capture);
         let mut stdout = String::new();
         let mut stderr = String::new();
         // the status of a function call is that of its last command
@@ -747,9 +771,8 @@ fn try_run_func(
         cr.status = status;
         cr.stdout = stdout;
         cr.stderr = stderr;
-        return Some(cr);
+        cr
     }
-    None
 }
 
 fn try_run_calculator(line: &str, capture: bool) -> Option<CommandResult> {
